@@ -32,7 +32,8 @@ PROP = "C15"
 LEAN = {"module": "Pygom.Props.C15",
         "required": ["Pygom.C15.rows_count", "Pygom.C15.row_zero", "Pygom.C15.row_is_path_state",
                      "Pygom.C15.counts_are_per_transition", "Pygom.C15.rows_differ_by_vmat_counts",
-                     "Pygom.C15.exact_counts_counterexample"]}
+                     "Pygom.C15.exact_counts_counterexample", "Pygom.C15.exact_run_rows_differ", "Pygom.C15.rows_telescope",
+                     "Pygom.C15.exact_run_rows_telescope", "Pygom.C15.grid_point_coincidence_counterexample", "Pygom.C15.time_arg_forms"]}
 BUDGET = {"quick": {"models": 300, "sessions": 160},
           "thorough": {"models": 4000, "sessions": 1200, "max_steps": 2000, "steps": [40, 150, 600, 1500], "session_steps": [40, 150, 600]}}
 RULE = ("bounded-rate event models (shared generator), integer initial states handed over as int / int32 / float64 ndarray, list or "
